@@ -117,7 +117,9 @@ def gen_grid(run):
 
 def check(run):
     run.rule = ("TLC draws price tables x removed-node sets from the grid of Consolidation.tla (3 types x 2 capacity types x 2 zones, "
-                "prices {1,2,3,5} x 1/8 $, zone zb same / overlay-priced / unavailable / not offered, 1-3 nodes) and enumerates the pods "
+                "prices {1,2,3,5} x 1/8 $, zone zb same / overlay-priced / unavailable / not offered, zone-za offerings of every capacity type "
+                "out of capacity independently, an available or exhausted capacity reservation, pools allowing each subset of capacity "
+                "types, 1-3 nodes) and enumerates the pods "
                 "grid (pod sizes, capacity-type selector, zero-cost pods, room on a remaining node); each scenario runs on the real "
                 "Single/MultiNodeConsolidation and Emptiness ComputeCommands (incl. validation) and a real Controller.Reconcile round; "
                 "directed churn during the validation wait, the spot-to-spot threshold ladder (13..20 cheaper types, minValues), a seeded "
